@@ -1,5 +1,7 @@
 import ComposeVerif.Ops.Common
 import ComposeVerif.Model.Extends
+import ComposeVerif.Model.ExtendsMerge
+import ComposeVerif.Model.ExtendsFS
 import ComposeVerif.Gen.Tables
 /-! line-protocol ops for C05: `c05.apply` (ApplyExtends over a file-system table), `c05.extend` (plain ExtendService) -/
 open Lean
@@ -21,7 +23,10 @@ def fileResOfJson (j : Json) : FileRes :=
     match j.getObjVal? "ok" with
     | .ok v =>
       match Val.ofJson v with
-      | .ok (.map doc) => .ok doc (getBool j "rerr")
+      | .ok (.map doc) =>
+        (match j.getObjVal? "rpanic" with
+        | .ok (.str site) => .okResolvePanic doc site
+        | _ => .ok doc (getBool j "rerr"))
       | _ => .err "bad-doc"
     | _ => .err "bad-entry"
 
@@ -36,9 +41,10 @@ def perms : List String → List (List String)
   | [] => [[]]
   | x :: xs => (perms xs).flatMap fun p => (List.range (p.length + 1)).map fun i => p.take i ++ [x] ++ p.drop i
 
+/-- `"merge":"plain"` selects the rule-free merge of `Model/Extends.lean`; default = the C04 merge model -/
 def mkEnv (args : Json) : Env :=
   { mainFile := getStr args "main", fs := fsOfJson (getObj args "fs"),
-    extend := plainExtend CV.Gen.mergeSpecials }
+    extend := if getStr args "merge" == "plain" then plainExtend CV.Gen.mergeSpecials else mergeExtend }
 
 /-- all outcomes of `ApplyExtends` over the visit orders of the services map (Go's order is random):
     `{"outs":[…distinct…]}`; with more than 5 services only the list order and its reverse are tried. -/
@@ -53,15 +59,28 @@ def apply : Handler := fun args =>
         match lookup "services" dict with
         | some (.map S) => if (keys S).length ≤ 5 then perms (keys S) else [keys S, (keys S).reverse]
         | _ => [[]]
-    let outs := orders.map fun o => (outJson (fun d => Val.toJson (.map d)) (applyExtendsOrd E o dict)).compress
+    let outs0 := orders.map fun o => (outJson (fun d => Val.toJson (.map d)) (applyExtendsOrd E o dict)).compress
+    -- the failure a visit order reports is the failure of the first failing service it visits; memoisation
+    -- does not change whether or how a service fails, so every failing service contributes its own failure
+    let perSvc : List String :=
+      match lookup "services" dict with
+      | some (.map S) => (keys S).filterMap fun n =>
+          match applySvc E (fuelFor E S) E.mainFile n S [] with
+          | .ok _ => none
+          | .err c => some (outJson (fun (_ : Unit) => Json.null) (.err c)).compress
+          | .panic st => some (outJson (fun (_ : Unit) => Json.null) (.panic st)).compress
+      | _ => []
+    let outs := outs0 ++ perSvc
     let distinct := outs.foldl (fun acc s => if acc.contains s then acc else acc ++ [s]) ([] : List String)
     Json.mkObj [("outs", Json.arr (distinct.filterMap fun s => (Json.parse s).toOption).toArray)]
   | _ => Json.mkObj [("bad", "dict")]
 
-/-- plain `override.ExtendService` -/
+/-- `override.ExtendService`: through the C04 merge model (`full`) and through the rule-free merge (`plain`) -/
 def extend : Handler := fun args =>
   match Val.ofJson (getObj args "base"), Val.ofJson (getObj args "over") with
-  | .ok (.map b), .ok (.map o) => outJson (fun d => Val.toJson (.map d)) (plainExtend CV.Gen.mergeSpecials b o)
+  | .ok (.map b), .ok (.map o) =>
+    Json.mkObj [("full", outJson (fun d => Val.toJson (.map d)) (mergeExtend b o)),
+                ("plain", outJson (fun d => Val.toJson (.map d)) (plainExtend CV.Gen.mergeSpecials b o))]
   | _, _ => Json.mkObj [("bad", "args")]
 
 /-- `cycleTracker.Add` fed with a key sequence: index of the first rejected key, or -1 -/
@@ -78,6 +97,16 @@ def tracker : Handler := fun args =>
       | some tr' => go tr' (i + 1) ks
   Json.mkObj [("rejected", Json.num (JsonNumber.fromInt (go [] 0 keys)))]
 
-def handlers : List (String × Handler) := [("c05.apply", apply), ("c05.extend", extend), ("c05.tracker", tracker)]
+/-- `getExtendsBaseFromFile` on a canonical document stored in directory `reldir`: the model's file-system entry
+(`anchoredFile`) and what `baseFromFile` makes of it for the reference `ref` -/
+def base : Handler := fun args =>
+  match Val.ofJson (getObj args "doc") with
+  | .ok (.map doc) =>
+    let fs : FS := [("f", anchoredFile (getStr args "reldir") doc)]
+    outJson (fun d => Val.toJson (.map d)) (baseFromFile fs "f" (getStr args "ref"))
+  | _ => Json.mkObj [("bad", "doc")]
+
+def handlers : List (String × Handler) :=
+  [("c05.apply", apply), ("c05.extend", extend), ("c05.tracker", tracker), ("c05.base", base)]
 
 end CV.Ops.C05
